@@ -345,7 +345,7 @@ def coq_eval(name, imports, exprs, chunk=400, timeout=900):
             f.write('Set Printing Width 1000000.\nSet Printing Depth 1000000.\n')
             for i, e in enumerate(part):
                 f.write('Definition case_%d := %s.\n' % (i, e))
-                f.write('Eval vm_compute in (%d%%nat, case_%d).\n' % (ci + i, i))
+                f.write('Eval vm_compute in (%d%%Z, case_%d).\n' % (ci + i, i))
         files.append((path, len(part), ci))
     results = [None] * len(exprs)
     procs = []
@@ -365,7 +365,7 @@ def coq_eval(name, imports, exprs, chunk=400, timeout=900):
         out, _ = p.communicate()
         if p.returncode != 0:
             errors.append(out[-3000:])
-        for m in re.finditer(r'=\s*\((\d+)(?:%nat)?,\s*(.*?)\)\s*\n\s*:\s', out, flags=re.S):
+        for m in re.finditer(r'=\s*\((\d+)(?:%\w+)?,\s*(.*?)\)\s*\n\s*:\s', out, flags=re.S):
             results[int(m.group(1))] = re.sub(r'\s+', ' ', m.group(2)).strip()
         base = it[0][:-2]
         for ext in ('.v', '.vo', '.vok', '.vos', '.glob'):
